@@ -22,7 +22,7 @@ INTS = [0, 1, -1, 2, 255, 256, 65535, 65536, 2 ** 31 - 1, 2 ** 31, -2 ** 31, 2 *
         3 ** 2000, -(7 ** 4000 // 10 ** 10), int("f" * 4000, 16), -int("7" + "0" * 4200, 16)]
 FLOATS = [0.0, -0.0, 1.0, -1.0, 1.5, 0.1, 1e22, 1e-7, 5e-324, 1.7976931348623157e308, 2.0 ** 53, 2.0 ** 53 + 2, 9007199254740993.0,
           INF, -INF, NAN_Q, NAN_NEG, NAN_PAYLOAD, NAN_S, 1e16, 123456789012345678.0, 3.141592653589793]
-STRS = ["", "a", "abc", "é", "\U0001f600", "\ud800", "\udc80x", "x\udfff", "𐀀", "a\x00b", "q" * 300, "'quote\"s\\",
+STRS = ["tired \U0001f971", "\U0001fad0\U0001fae0\U0001fae8", "\u061d\u2028\u200d\x85", "", "a", "abc", "é", "\U0001f600", "\ud800", "\udc80x", "x\udfff", "𐀀", "a\x00b", "q" * 300, "'quote\"s\\",
         "\n\t\r", "  ", "{\"string\": 1}", "nan", "int", "\x7f\x80",
         # lone surrogate next to characters that entered Unicode in 12.0 / 13.0 / 14.0 / 15.0 (printable on newer hosts only)
         "\udc80\U0001fa70", "\ud800\U0001fad6", "\udfff\U0001fae0\U0001fae8", "\ud800\u0870\U0001e030"]
@@ -88,6 +88,22 @@ BIG_FAMILIES = [[_big(n, 0), _big(n, 0.0), _big(n, False), _big(n, -0.0), _big(n
                 for n in (65, 300)]
 BIG_FAMILIES.append([tuple([1] * 70), tuple([True] * 70), tuple([1.0] * 70), tuple([1] * 69 + [True]), tuple([1] * 69 + [1.0]),
                      (tuple(range(70)),), (tuple([0.0] + list(range(1, 70))),)])
+
+
+_N_BASE_FAMILIES = len(FAMILIES)
+
+
+def family_pairs():
+    """Every pair inside the hand-written CPython-distinct families (always run, in every tier)."""
+    out = []
+    for fi, fam in enumerate(FAMILIES[:_N_BASE_FAMILIES]):
+        for i in range(len(fam)):
+            for j in range(i + 1, len(fam)):
+                out.append(("fam%d.%d.%d" % (fi, i, j), fam[i], fam[j]))
+    return out
+
+
+BIG_CONSTANTS = [b"\x01" * (2 ** 20 + 1), b"ab" * (2 ** 20 + 2 ** 18), "s" * (2 ** 20 + 1), "\u20ac" * 400000, 7 ** 400000]
 
 
 def lookalike_pairs():
@@ -174,14 +190,19 @@ def _replace_in_child(mod, fn):
     return rebuild(mod, co_consts=tuple(new))
 
 
-def build_case(seed, i, pair=None):
+def build_case(seed, i, pair=None, layout=None):
     """Deterministic W9 case -> (id, code object, description)."""
     rng = H.rng_for(seed, "w9", i)
+    if pair is not None and pair >= 2000000:
+        v = BIG_CONSTANTS[pair - 2000000]
+        code = _replace_consts(_base("module"), {987654321: v, 987654322: 0, 987654323: v})
+        return "w9:big:%d" % (pair - 2000000), code, "%s of length %d" % (type(v).__name__, len(v) if not isinstance(v, int) else v.bit_length())
     if pair is not None:
-        label, a, b = lookalike_pairs()[pair]
+        label, a, b = (family_pairs()[pair - 1000000] if pair >= 1000000 else lookalike_pairs()[pair])
         if pair % 2:
             a, b = b, a
-        layout = (pair // 2) % 3
+        if layout is None:
+            layout = (pair // 2) % 3
         if layout == 0:
             code = _replace_consts(_base("module"), {987654321: a, 987654322: b, 987654323: a})
         elif layout == 1:
